@@ -222,12 +222,18 @@ func equal(lhsV, rhsV reflect.Value) bool {
 	// while leaving the other side alone. Code further
 	// down takes care of converting ints and floats as needed.
 	if isNum(lhsV) && rhsV.Kind() == reflect.String {
-		rhsF, err := tryToFloat64(rhsV)
+		// If the RHS is a string formatted as an int, try that before trying float
+		rhsI, err := tryToInt64(rhsV)
 		if err != nil {
-			// Couldn't convert RHS to a float, they can't be compared.
-			return false
+			rhsF, err := tryToFloat64(rhsV)
+			if err != nil {
+				// Couldn't convert RHS to a number, they can't be compared.
+				return false
+			}
+			rhsV = reflect.ValueOf(rhsF)
+		} else {
+			rhsV = reflect.ValueOf(rhsI)
 		}
-		rhsV = reflect.ValueOf(rhsF)
 	} else if lhsV.Kind() == reflect.String && isNum(rhsV) {
 		// If the LHS is a string formatted as an int, try that before trying float
 		lhsI, err := tryToInt64(lhsV)
